@@ -160,7 +160,10 @@ def run_data(idx, rng, sh):
             poison([st], rng)
         g = s.get_string(o)
         if g != w:
-            raise Bad('string lookup (distance to NUL %d)' % (strtab.index(b'\0', o) - o), offset=o, got=g[:20], want=w[:20])
+            dist = strtab.index(b'\0', o) - o
+            raise Bad('string lookup (distance to the terminator %s)' % ('< 64' if dist < 64 else 'a multiple of 64' if dist % 64 == 0 and dist < 1024
+                                                                          else '64..1023' if dist < 1024 else '1024..65535' if dist < 65536 else '>= 65536'),
+                      offset=o, distance=dist, got=g[:20], want=w[:20])
     for i, g in enumerate(info['segs']):
         seg = ef.get_segment(i)
         poison([st], rng)
